@@ -15,13 +15,13 @@ def matrixBlocks : List String := ["(:,:3,3)", "(:,:3,:3)", "(:,:3,3)"]
 /-- `apply`: the three array operations in order. -/
 def applySteps : List String := ["add:center_translation", "matmul:rotation", "add:target_translation"]
 /-- `superimpose`: arguments of the `AffineTransformation` it returns. -/
-def ctorArgs : List String := ["-mob_centroid", "rotation", "fix_centroid"]
+def ctorArgs : List String := ["-mobile", "fixed+mobile", "fixed"]
 /-- `superimpose_without_outliers`: comparisons and defaults. -/
 def inlierCmp : String := "LtE"
 def minAnchorsCmp : String := "Lt"
 def maxIterCmp : String := "Lt"
 def maxIterConst : Int := 1
-def returnedAnchors : String := "np.where(inlier_mask)[0]"
+def returnedAnchors : String := "fitted-mask"
 def defaultMinAnchors : Nat := 3
 def defaultMaxIterations : Nat := 10
 def defaultQuantiles : List (Int × Nat) := [((1 : Int), (4 : Nat)), ((3 : Int), (4 : Nat))]
